@@ -160,7 +160,8 @@ StepFreeOk(r) ==
 Explains(r, m) ==
   CASE r.e = "System" -> SystemOk(SysOf(r))
     [] r.e = "Config" -> ConfigOk(r)
-    [] r.e = "Data" -> c # NoCfg /\ c.exact /\ r.cfg = c.id /\ Len(r.yq) = NB(sys) /\ Len(r.a) = NB(sys)
+    [] r.e = "Data" -> /\ c # NoCfg /\ c.exact /\ r.cfg = c.id /\ Len(r.yq) = NB(sys) /\ Len(r.a) = NB(sys)
+                       /\ (~c.additive => \A b \in 1..NB(sys) : r.a[b] = 0)          \* no additive term
     [] r.e = "Run" -> RunOk(r)
     [] r.e = "SetUp" -> SetUpOk(r)
     [] r.e = "Step" -> StepCommon(r) /\ (IF c.exact THEN StepExactOk(r, m) ELSE StepFreeOk(r))
